@@ -116,6 +116,13 @@ def longest_first_rule(F, rep):
             hit_returns = first_hit_returns(b, bi, d)
             pos_ok = position_from(b, defs, calls, L, roots, bi, d)
             nm = b["names"].get(str(L), "_%d" % L)
+            # every candidate is looked up: no path around the loop from the membership test back to itself that bypasses the test (a `continue` / an `if` that skips
+            # candidates by some other criterion - their length, a cache - makes a bound name unfindable)
+            skip = skipping_cycle(b, bi)
+            if skip and direction == "desc" and hit_returns:
+                rep.violation(rid, key + ":skip", "%s can go round the candidate loop without testing the candidate against the scope keys (blocks at lines %s): a candidate prefix that is "
+                              "a bound name is skipped" % (n, skip), where)
+                continue
             if direction == "asc" and hit_returns:
                 rep.violation(rid, key, "%s tries the candidate prefixes shortest first (%s) and returns at the first hit: the shortest bound name is chosen instead of the longest" % (n, why), where)
             elif direction == "desc" and hit_returns:
@@ -299,6 +306,43 @@ def direction_of(b, defs, calls, L, ty, roots):
     if kinds == {"iter-fwd"}:
         return "asc", "taken from a range iterated forwards"
     return "unknown", why
+
+
+def skipping_cycle(b, bi):
+    """lines of a cycle of the CFG that lies inside the loop of the membership test (the strongly connected component of block bi) but does not pass through bi;
+    cycles of inner loops that build the candidate (and therefore reach bi only after leaving them) are not such cycles: only cycles through the loop *header* count"""
+    blocks = b["blocks"]
+    n = len(blocks)
+    succ = {i: [y for y in succs(blocks[i]["t"]) if y is not None and y < n and not blocks[y].get("cleanup")] for i in range(n)}
+    # the SCC of bi
+    def reach_from(x, banned=()):
+        seen, work = set(), [x]
+        while work:
+            v = work.pop()
+            for w in succ.get(v, []):
+                if w not in seen and w not in banned:
+                    seen.add(w)
+                    work.append(w)
+        return seen
+    fwd = reach_from(bi)
+    scc = {v for v in fwd if bi in reach_from(v)} | ({bi} if bi in fwd else set())
+    if not scc:
+        return None
+    # loop header(s): blocks of the SCC entered from outside it
+    preds = {}
+    for v, ws in succ.items():
+        for w in ws:
+            preds.setdefault(w, []).append(v)
+    headers = [v for v in scc if any(p_ not in scc for p_ in preds.get(v, []))]
+    for hd in headers:
+        if hd == bi:
+            continue
+        # can the header reach itself inside the SCC without passing bi?
+        inner = reach_from(hd, banned={bi} | (set(range(n)) - scc))
+        if hd in inner:
+            lines = sorted({st[-1] for v in inner & scc for st in blocks[v]["s"] if isinstance(st[-1], int)})
+            return lines[:6]
+    return None
 
 
 def first_hit_returns(b, bi, d):
